@@ -212,3 +212,36 @@ Lemma blocked_space_lists :
   lu_blocked_result LU = "domain_spaces"%string /\ it_blocked_weak_rhs IT = "dual_to_range_spaces"%string /\
   lu_blocked_rhs LU = "dual_to_range_spaces"%string.
 Proof. repeat split; reflexivity. Qed.
+
+From Coq Require Import ZArith.
+(* ---- the strong-form system matrix M^-1 W of an SPD operator is in general NOT symmetric (recorded finding: cg with
+   use_strong_form=True), but it is self-adjoint with respect to the M-inner product: M (M^-1 W) = W ---- *)
+Definition symmetric {A} (X : M A) : Prop := rows X = cols X /\ forall i j, (i < rows X)%nat -> (j < rows X)%nat -> ent X i j = ent X j i.
+
+Lemma strong_system_not_symmetric :
+  exists (W Mi : M Z), symmetric W /\ symmetric Mi /\
+    ~ symmetric (mmul Z 0%Z Z.add Z.mul Mi W).
+Proof.
+  exists (of_rows Z 0%Z 2 2 [[2; 1]; [1; 2]]%Z), (of_rows Z 0%Z 2 2 [[1; 0]; [0; 2]]%Z).
+  split; [|split].
+  - split; [reflexivity|]. intros [|[|i]] [|[|j]] Hi Hj; simpl in *; try reflexivity; lia.
+  - split; [reflexivity|]. intros [|[|i]] [|[|j]] Hi Hj; simpl in *; try reflexivity; lia.
+  - intros [_ H]. specialize (H 0%nat 1%nat ltac:(simpl; lia) ltac:(simpl; lia)). vm_compute in H. discriminate.
+Qed.
+
+Section MSelfAdjoint.
+  Variable A : Type.
+  Variables (r0 r1 : A) (radd rmul rsub : A -> A -> A) (ropp : A -> A).
+  Hypothesis Rth : ring_theory r0 r1 radd rmul rsub ropp (@eq A).
+  (* M (M^-1 W) = W: with W symmetric, M^-1 W is self-adjoint in the inner product induced by M *)
+  Lemma strong_system_M_selfadjoint : forall (W Mm Mi : M A) n, rows W = n -> cols Mi = n ->
+    meq A (mmul A r0 radd rmul Mm Mi) (mid A r0 r1 n) ->
+    meq A (mmul A r0 radd rmul Mm (mmul A r0 radd rmul Mi W)) W.
+  Proof.
+    intros W Mm Mi n RW C I.
+    rewrite <- (mmul_assoc A r0 r1 radd rmul rsub ropp Rth Mm Mi W).
+    transitivity (mmul A r0 radd rmul (mid A r0 r1 n) W).
+    - apply mmul_compat; [assumption|reflexivity|]. simpl. congruence.
+    - rewrite <- RW. apply (mid_l A r0 r1 radd rmul rsub ropp Rth).
+  Qed.
+End MSelfAdjoint.
